@@ -4,10 +4,9 @@ Import ListNotations.
 Require Import KV.C19.Model KV.C19.Proofs.
 Open Scope N_scope.
 
-Definition eA := mkE 1 (1, 0) 1 (1, 0) None (0, 0) 0 (1, 0).          (* uuid 1, name 1, made on replica 0 *)
-Definition eB := mkE 2 (1, 1) 1 (1, 1) (Some 1) (1, 1) 0 (1, 1).      (* uuid 2, SAME name, made on replica 1 *)
-Definition eC := mkE 3 (2, 0) 2 (2, 0) (Some 2) (2, 0) 0 (2, 0).
-Definition eD := mkE 4 (3, 0) 1 (3, 0) None (0, 0) 1 (4, 0).          (* recycled holder of name 1 *)
+Definition eA := mkE 1 (1, 0) 1 (1, 0) 1 (1, 0) None (0, 0) 0 (1, 0) false.          (* uuid 1, name 1, made on replica 0 *)
+Definition eB := mkE 2 (1, 1) 1 (1, 1) 1 (1, 1) (Some 1) (1, 1) 0 (1, 1) false.      (* uuid 2, SAME name, made on replica 1 *)
+Definition eC := mkE 3 (2, 0) 2 (2, 0) 2 (2, 0) (Some 2) (2, 0) 0 (2, 0) false. Definition eD := mkE 4 (3, 0) 1 (3, 0) 1 (3, 0) None (0, 0) 1 (4, 0) false.          (* recycled holder of name 1 *)
 
 (* a non-trivial database satisfying the invariant: a live and a recycled entry share a name *)
 Example C19_witness_uniq : Uniq [eA; eC; eD].
@@ -65,8 +64,8 @@ Proof. eexists. vm_compute. repeat split; reflexivity. Qed.
 
 (* an observation list on which `agree` and `pcheck` hold (accepted create, refused duplicate, replication
    producing a conflict pair) *)
-Definition cA := mkE 1 (1, 0) 1 (1, 0) None (0, 0) 2 (3, 0).
-Definition cB := mkE 2 (1, 1) 1 (1, 1) (Some 1) (1, 1) 2 (3, 0).
+Definition cA := mkE 1 (1, 0) 1 (1, 0) 1 (1, 0) None (0, 0) 2 (3, 0) true.
+Definition cB := mkE 2 (1, 1) 1 (1, 1) 1 (1, 1) (Some 1) (1, 1) 2 (3, 0) true.
 Definition w_case : case :=
   CHist 2
     [Obs (OCreate 0 1 [(1, 1, None)]) 0 [eA] [(1, [(0, 1); (1, 1)])];
@@ -87,3 +86,29 @@ Example C19_witness_pcheck_rejects :
   guniqb [(1, [(0, 1)]); (1, [(0, 2)])] = false /\
   agree (CHist 1 [Obs (OCreate 0 1 [(1, 1, None)]) 0 [eA; eB] [(1, [(0, 1); (1, 1)])]] [[]] [[eA]]) = false.
 Proof. vm_compute. repeat split; reflexivity. Qed.
+
+(* transcribed behaviour worth a witness (observed on the real servers): the spn is re-set by every modify and
+   merged as an attribute of its own, so a rename on replica 0 followed by a LATER gidnumber change on
+   replica 1 leaves both replicas with name 4 but the spn of name 2; name 2 then stays unusable (the
+   create is refused on the spn) — uniqueness holds, C22 (spn = name@domain) does not *)
+Definition w_spn_ops : list op :=
+  [OCreate 0 1 [(1, 2, Some 1)]; ORepl 1 0 2 2000;
+   OMod 0 3 [1] 0 4; OMod 1 4 [1] 1 2;
+   ORepl 0 1 5 5000; ORepl 1 0 6 6000].
+Example C19_witness_stale_spn :
+  exists s, run (init 2) w_spn_ops = Some s /\
+    map (fun e => (name e, spn e, gid e, cls e)) (getr s 0) = [(4, 2, Some 2, 0)] /\
+    same_set (getr s 0) (getr s 1) = true /\
+    fst (do_create (7, 0) [(2, 2, None)] (getr s 0)) = R_UNIQUE.
+Proof. eexists. vm_compute. repeat split; reflexivity. Qed.
+
+(* validate_repl branch: deleted on replica 0 (later) and conflicted on replica 1 (earlier): the merged entry
+   keeps the class change id of the delete but ends in the conflict state on both replicas *)
+Definition w_fix_ops : list op :=
+  [OCreate 0 1 [(1, 1, None)]; OCreate 1 1 [(2, 1, None)]; ORepl 1 0 2 2000;
+   ODelete 0 3 [1]; ORepl 0 1 4 4000; ORepl 1 0 5 5000].
+Example C19_witness_validate_repl :
+  exists s, run (init 2) w_fix_ops = Some s /\
+    map (fun e => (uuid e, cls e, cls_c e, src e)) (getr s 0) = [(1, 2, (3, 0), true); (2, 2, (2, 1), true)] /\
+    same_set (getr s 0) (getr s 1) = true.
+Proof. eexists. vm_compute. repeat split; reflexivity. Qed.
